@@ -235,7 +235,42 @@ class MirrorSession(C03Replayer):
         out['cpost'] = self.csnapshot()
         out['fired'] = self.fired_sets()
         out['store'], out['truth'] = self.store_projection(out)
+        out['reads'] = self.read_requests(out) if (out['act'] == 'Commit' and out['res'] == 'ok') else []
         return out
+
+    def read_requests(self, out):
+        """Read-only requests of a consumer between two commits (GetContextStates / GetMdState with an MDS handle, a
+        descriptor handle, no handle; GetMdDescription): stuttering steps of the model - the provider MDIB, its
+        lookups included, is what it was."""
+        from .mdibharness import table_agrees
+        mdib = self.pair.mdib
+        pm = mdib.data_model.pm_names
+        self.n_reads = getattr(self, 'n_reads', 0) + 1
+        k = self.n_reads
+        mds = sorted(d.Handle for d in mdib.descriptions.objects if d.NODETYPE == pm.MdsDescriptor)
+        ctxd = sorted(d.Handle for d in mdib.descriptions.objects if d.is_context_descriptor)
+        one_mds = [mds[k % len(mds)]]
+        ctx_args = [one_mds, one_mds + ctxd[:1], ctxd[-1:], None, list(mds)][k % 5]
+        md_args = [one_mds, None, [self.proj.map_d['m1']], ctxd[:1]][k % 4]
+        cons = self.pair.consumer
+        calls = [('GetContextStates', cons.context_service_client.get_context_states, ctx_args),
+                 ('GetMdState', cons.get_service_client.get_md_state, md_args)]
+        if k % 3 == 0:
+            calls.append(('GetMdDescription', cons.get_service_client.get_md_description, one_mds))
+        before = self.proj.project(mdib)
+        reads = []
+        for name, fn, arg in calls:
+            try:
+                fn(arg)
+                exc = ''
+            except Exception as ex:  # noqa: BLE001
+                exc = type(ex).__name__
+            after = self.proj.project(mdib)
+            reads.append({'req': name, 'handles': list(arg or []), 'exc': exc, 'same': after == before,
+                          'agree': bool(table_agrees(mdib.descriptions) and table_agrees(mdib.states)
+                                        and table_agrees(mdib.context_states))})
+        self.new_wires()   # (requests and their answers are not reports)
+        return reads
 
     def store_projection(self, out):
         """State copies retained by the periodic reports handler, with the truth of the versions they are labelled with."""
